@@ -114,7 +114,7 @@ func c06ReadBatch(rng *hx.Rng, state []dumpEntry, next *wreq, lastOff int64) []s
 }
 
 func c06RouteReads(o *hx.Out, rng *hx.Rng, lg *c06Log) {
-	disk := rng.Chance(35)
+	disk := rng.Chance(35) || (lg.pivot >= 0 && rng.Chance(50))
 	b := newEnv(lg.shard, false) // applies the log alone
 	defer b.close()
 	c06Prelude(b.db, lg)
@@ -161,6 +161,13 @@ func c06RouteReads(o *hx.Out, rng *hx.Rng, lg *c06Log) {
 			}
 		}
 		for i, en := range lg.entries {
+			if disk && i == lg.pivot {
+				// the instance is re-created right after the highest timestamp so far (B keeps its instance)
+				r.do("R")
+				r.do(fmt.Sprintf("E:%d", b2i(lg.en)))
+				sched = append(sched, fmt.Sprintf("before#%d[Close+NewDB]", i))
+				o.Count("reads:reopen-at-pivot")
+			}
 			serve(i, en.w)
 			rt.how = strings.Join(sched, " ")
 			rt.entry(i, r.do(en.op))
